@@ -360,6 +360,15 @@ func TestC16(t *testing.T) {
 
 	upper := strings.ToUpper
 	moduleNames := []string{"erc20", "eth", "bsc", "tron", "distribution", "evm", "bonded_tokens_pool", "mint", "fee_collector", "crosschain", "gov", "polygon", "avalanche", "arbitrum", "optimism", "layer2", "migrate", "transfer", "feemarket"}
+	for _, sn := range spaceNames { // every store key of the running app names a module
+		known := false
+		for _, mn := range moduleNames {
+			known = known || mn == sn
+		}
+		if !known {
+			moduleNames = append(moduleNames, sn)
+		}
+	}
 	govBz := authtypes.NewModuleAddress(govtypes.ModuleName)
 	modCursor := map[string]int{}
 	candidates := func(rng *rand.Rand, m sdk.Msg) []cand {
@@ -379,7 +388,13 @@ func TestC16(t *testing.T) {
 			{"gov", gov}, {"GOV-upper", upper(gov)}, {"module", other}, {"module", other2}, {"module-upper", upper(other2)},
 			{"account", acc}, {"account-upper", upper(acc)},
 		}
-		// every name and every address in the payload: the module account of that name / that address itself
+		// the module account of every name the message's own type URL is made of (a handler that also lets "its own"
+		// module through: /cosmos.upgrade.v1beta1.MsgCancelUpgrade -> the upgrade module account)
+		for _, seg := range strings.FieldsFunc(sdk.MsgTypeURL(m), func(r rune) bool { return r == '/' || r == '.' }) {
+			if a := authtypes.NewModuleAddress(seg).String(); a != gov && seg == strings.ToLower(seg) {
+				cs = append(cs, cand{"own-module", a})
+			}
+		}
 		ps := payloadStrings(m)
 		rng.Shuffle(len(ps), func(i, j int) { ps[i], ps[j] = ps[j], ps[i] })
 		if len(ps) > 5 {
@@ -686,7 +701,9 @@ func TestC16(t *testing.T) {
 					out.Nontrivial("h|" + tg.T + "|" + msgKey(m) + "|" + c.kind + "|" + obs)
 					// property monitor, handler level: only the canonical spelling of the governance address or a case variant
 					// of it (what the weakest comparison in use, strings.EqualFold, identifies with it) may get past the handler
-					if err == nil && res == "ok" {
+					// (only for the REGISTERED server: the per-chain servers behind the crosschain router are internal — a guard
+					// hoisted to the router entry would be just as good; they are compared with the model, not monitored)
+					if err == nil && res == "ok" && ti == 0 {
 						if !strings.EqualFold(gov, c.val) {
 							out.Violate(fmt.Sprintf("handler level: privileged message %s delivered directly to the registered Msg server %s (the router's ValidateBasic bypassed) took effect with non-governance authority kind=%s (%q)", msgKey(m), tg.T, c.kind, c.val))
 						} else if !foldEq(gov, c.val) {
